@@ -53,6 +53,8 @@ RecOf(f, name) == f[CHOOSE k \in 1..Len(f) : f[k].name = name]
 RowSeq(f, r) == IF IsGap(r) THEN Ns(RowLen(r))
                 ELSE LET x == SubSeq(RecOf(f, r.name).res, r.s, r.e) IN IF r.st = -1 THEN RevComp(x) ELSE x
 Expected(f, rows) == FoldLeft(LAMBDA acc, r : acc \o RowSeq(f, r), <<>>, rows)
+\* the same with another gap character (FastaStream's gap_character argument)
+ExpectedG(f, rows, g) == FoldLeft(LAMBDA acc, r : acc \o (IF IsGap(r) THEN [i \in 1..RowLen(r) |-> g] ELSE RowSeq(f, r)), <<>>, rows)
 \* wrap a residue sequence into lines of length L (last line shorter, never empty)
 Wrap(s, L) == [i \in 1..((Len(s) + L - 1) \div L) |-> SubSeq(s, (i - 1) * L + 1, MinI(i * L, Len(s)))]
 
